@@ -42,7 +42,7 @@ HB_MSG = "Heartbeat wasn't received."
 
 def cases(seed, tier):
     rng = random.Random('c20-%s' % seed)
-    n = 180 if tier == 'quick' else 2500
+    n = 720 if tier == 'quick' else 5000
     out = []
     for i in range(n):
         prng = random.Random(rng.getrandbits(64))
